@@ -498,12 +498,14 @@ func ruleErrPropagates(rule string) RuleFn {
 // ruleValueBlind: verdicts do not depend on the values user functions return.
 func ruleValueBlind(rule string) RuleFn {
 	return func(c *an.Ctx) {
-		c.Rule(rule, "W-value-inspect: dig looks inside the reflect.Values that user functions produced (Len, Index, IsNil, IsZero, IsValid, Interface, Field, Elem, Int, String, ...) only where that is part of delivering them: resultList.ExtractList (error results), Scope.Invoke (the returned error), resultGrouped.Extract (flatten), resultObject.Extract (fields), paramObject.Build (assembling dig.In), the two invokers; no other function branches on or inspects run-time values, so every dig-originated verdict is a function of types, keys and errors only and is the same under DryRun, whose fake results are zero values")
+		c.Rule(rule, "W-value-inspect: dig looks inside the reflect.Values that user functions produced (Len, Index, IsNil, IsZero, IsValid, Interface, Field, Elem, Int, String, ...) only where that is part of delivering them: resultList.ExtractList (error results), Scope.Invoke (the returned error), resultGrouped.Extract (flatten), resultObject.Extract (fields), paramObject.Build (assembling dig.In), the two invokers, and Scope.String with its private helpers (printing the cached values for a human: it returns text, never a verdict); no other function branches on or inspects run-time values, so every dig-originated verdict is a function of types, keys and errors only and is the same under DryRun, whose fake results are zero values")
 		allowed := map[string]bool{
 			"(dig.resultList).ExtractList": true, "(*dig.Scope).Invoke": true, "(dig.resultGrouped).Extract": true,
 			"(dig.resultObject).Extract": true, "(dig.paramObject).Build": true, "dig.dryInvoker": true, "dig.defaultInvoker": true,
 			"dig.newConstructorNode": true, "dig.newDecoratorNode": true, "dig/internal/digreflect.InspectFunc": true,
 			"(*dig.Scope).Provide": true, "(*dig.Scope).Decorate": true,
+			// prints the cached values for a human; its only result is text (helpers: printable, containsItself)
+			"(*dig.Scope).String": true,
 		}
 		inspect := map[string]bool{"Len": true, "Index": true, "IsNil": true, "IsZero": true, "IsValid": true, "Interface": true, "Field": true, "Elem": true,
 			"Int": true, "Uint": true, "Float": true, "String": true, "Bool": true, "MapIndex": true, "MapKeys": true, "NumField": true, "Cap": true, "Pointer": true, "Kind": true, "CanInterface": true}
